@@ -556,6 +556,11 @@ def rule_exec_test_agreement(ctx, rep, rid: str) -> None:
         return calls[0].func.attr if len(calls) == 1 and not conds[name] else None
 
     d_exec, d_test = delegate("exec"), delegate("test")
+    if d_test == "exec" or d_exec == "test":
+        # one is defined by the other and writes lastIndex nowhere itself
+        rep.ok(rid, "RegExp.exec/test:shared-step", {"delegation": "test -> exec" if d_test == "exec" else "exec -> test"})
+        rep.ok(rid, "RegExp.exec/test:shared-step:reset", {"delegation": "test -> exec" if d_test == "exec" else "exec -> test"})
+        return
     if d_exec is not None and d_exec == d_test:
         rep.ok(rid, "RegExp.exec/test:shared-step", {"helper": d_exec})
         rep.ok(rid, "RegExp.exec/test:shared-step:reset", {"helper": d_exec})
@@ -909,3 +914,96 @@ def rule_positions_nonnegative(ctx, rep, rid: str) -> None:
                         rep.bad(rid, key, f"{m.qual} passes `{norm(a)[:50]}` as the subject position `{cps[i]}` of {c.func.attr}, and it is not provably >= 0 (no clamp, no test against 0, no range that stops at 0): the matcher's instructions only test positions against the end of the subject, and the host reads a negative index from the end, so text that is not there is matched", f"{m.module.rel}:{c.lineno}")
     if n < 4:
         raise AnalysisError(f"{rid}: only {n} position arguments found in the regex matcher")
+
+
+# ---- lastIndex is written back under the conditions under which it is read --------------------------------
+def _flag_attrs(ctx, ci) -> Dict[str, str]:
+    """attribute -> flag letter for `self.X = "g" in flags` in the constructor."""
+    out: Dict[str, str] = {}
+    init = ctx.tree.find_method(ci, "__init__")
+    if init is None:
+        return out
+    for a in init.own_nodes():
+        if isinstance(a, ast.Assign) and len(a.targets) == 1 and isinstance(a.targets[0], ast.Attribute) and norm(a.targets[0].value) == "self" and isinstance(a.value, ast.Compare) and len(a.value.ops) == 1 and isinstance(a.value.ops[0], ast.In) and isinstance(a.value.left, ast.Constant) and isinstance(a.value.left.value, str):
+            out[a.targets[0].attr] = a.value.left.value
+    return out
+
+
+def _flag_truth(t: ast.AST, env: Dict[str, bool]) -> Optional[bool]:
+    """Truth of a condition over the flag attributes under env; None when it also depends on something else."""
+    if isinstance(t, ast.Attribute) and norm(t.value) == "self" and t.attr in env:
+        return env[t.attr]
+    if isinstance(t, ast.UnaryOp) and isinstance(t.op, ast.Not):
+        v = _flag_truth(t.operand, env)
+        return None if v is None else not v
+    if isinstance(t, ast.BoolOp):
+        vals = [_flag_truth(v, env) for v in t.values]
+        if isinstance(t.op, ast.Or):
+            if any(v is True for v in vals):
+                return True
+            return False if all(v is False for v in vals) else None
+        if any(v is False for v in vals):
+            return False
+        return True if all(v is True for v in vals) else None
+    return None
+
+
+def rule_lastindex_conditions_agree(ctx, rep, rid: str) -> None:
+    """exec reads lastIndex as its start position for the global and the sticky flag.  For each of those flags taken
+    alone, the failure exit must be able to reset lastIndex to 0 and the success exit to store the end of the match:
+    a flag for which lastIndex is read but not written back leaves the regex stuck at its old position."""
+    rep.rule(rid, "for every flag under which the matcher's driver reads lastIndex as the start position (g, y), a reset to 0 and an advance to the end of the match exist on paths enabled by that flag alone: lastIndex is never read for a flag it is not written back for", floor=2)
+    from ..util import known_conditions
+
+    ci = ctx.tree.mod("regex.regex").classes["RegExp"]
+    flags = _flag_attrs(ctx, ci)
+    if not flags:
+        raise AnalysisError("flag attributes of RegExp not found")
+    methods = {m.name: m for m in ci.all_methods if not isinstance(m.node, ast.Lambda)}
+
+    def enabled(node: ast.AST, m: Func, env: Dict[str, bool], depth: int = 0) -> bool:
+        """Can node execute under env (conditions that mention nothing but flags decide; others are open)?"""
+        for t, pol in known_conditions(node, m.node):
+            v = _flag_truth(t, env)
+            if v is not None and v != pol:
+                return False
+        if m.name in ("exec", "test") or depth > 2:
+            return True
+        # a helper: some call site must be enabled as well
+        sites = [(c, g) for g in methods.values() for c in g.own_nodes() if isinstance(c, ast.Call) and isinstance(c.func, ast.Attribute) and norm(c.func.value) == "self" and c.func.attr == m.name]
+        return any(enabled(c, g, env, depth + 1) for c, g in sites) if sites else True
+
+    reads, resets, advances = [], [], []
+    for m in methods.values():
+        if m.name == "__init__":
+            continue
+        for n in m.own_nodes():
+            if isinstance(n, ast.Attribute) and n.attr == "lastIndex" and norm(n.value) == "self":
+                par = getattr(n, "_parent", None)
+                if isinstance(n.ctx, ast.Load):
+                    reads.append((n, m))
+                elif isinstance(par, ast.Assign):
+                    if isinstance(par.value, ast.Constant) and par.value.value == 0:
+                        resets.append((par, m))
+                    else:
+                        advances.append((par, m))
+    if not reads or not resets or not advances:
+        raise AnalysisError(f"lastIndex protocol of RegExp not recognised (reads {len(reads)}, resets {len(resets)}, advances {len(advances)})")
+    names = sorted(flags)
+    n_obl = 0
+    for f in names:
+        env = {x: (x == f) for x in names}
+        if not any(enabled(n, m, env) for n, m in reads):
+            continue  # lastIndex is not consulted for this flag
+        for kind, sites, what in (("reset", resets, "reset to 0 after a failed match"), ("advance", advances, "moved to the end of a successful match")):
+            n_obl += 1
+            key = f"RegExp:{flags[f]}:{kind}"
+            # the reset that answers an unusable start index is not the failure exit of a match
+            real = [(a, m) for a, m in sites if not any(pol and ("None" in norm(t) and "start" in norm(t)) for t, pol in known_conditions(a, m.node))] or sites
+            if any(enabled(a, m, env) for a, m in real):
+                rep.ok(rid, key)
+            else:
+                a, m = real[0]
+                rep.bad(rid, key, f"with only the `{flags[f]}` flag set, exec/test read lastIndex as the start position, but no assignment by which lastIndex is {what} can execute under that flag alone (they are guarded by {sorted({norm(t) for a2, m2 in real for t, pol in known_conditions(a2, m2.node) if _flag_truth(t, env) is not None})}): a `{flags[f]}` regex stays at its old lastIndex", f"{m.module.rel}:{a.lineno}")
+    if n_obl < 2:
+        raise AnalysisError(f"{rid}: lastIndex is read under no flag")
